@@ -29,6 +29,8 @@ def run(project, rep):
     rep.rule("T-R8", "texts that do not denote a date-time / time are rejected when read: the grammar of the two patterns (Z-R1, Z-R1b)")
     rep.run(Z.z_r1_grammar, project, rep)
     rep.run(Z.z_r1b_separators, project, rep)
+    rep.rule("T-R9", "what the date-time writer emits is inside the reader's grammar (Z-R3: offset notation, zone-name group)")
+    rep.run(Z.z_r3_writer_shape, project, rep)
     rep.run(Z.z_r4_conversion, project, rep)
     rep.run(Z.z_r5_offset_sign, project, rep)
     rep.run(Z.z_r6_carrier_date, project, rep)
